@@ -973,6 +973,64 @@ func main() {
 		observe(ps, "create")
 		b.start()
 		observe(ps, "restart")
+	case "lagging-rejoin":
+		// a follower is down while a member is removed and joins again under the same id from ANOTHER address
+		// (new process, new directory, new port) and the membership log is compacted: the follower learns the
+		// re-join from a snapshot whose address book names an id it already has an (old) address for.
+		// Four nodes, so that the zero group keeps a quorum without the follower
+		d := mk(4, "127.0.0.1:"+a.port)
+		okd := d.start()
+		okv := 0
+		if okd {
+			okv = 1
+			ps = append(ps, d)
+		}
+		emit(event{"ev": "joined", "node": 4, "addr": ":" + d.port, "ok": okv})
+		observe(ps, "join")
+		b.kill()
+		ctx, cancel := context.WithTimeout(context.Background(), 5*time.Second)
+		_, err := pb.NewNodesManagerClient(a.conn).RemoveNode(ctx, &pb.Node{Id: 3})
+		cancel()
+		okv, es := 1, ""
+		if err != nil {
+			okv, es = 0, err.Error()
+		}
+		emit(event{"ev": "left", "node": 3, "ok": okv, "err": es})
+		time.Sleep(2500 * time.Millisecond)
+		c.kill()
+		observe(ps, "leave")
+		c2 := &proc{id: 3, port: freePort(), dir: filepath.Join(work, "n3b"), join: "127.0.0.1:" + a.port}
+		ok := c2.start()
+		okv = 0
+		if ok {
+			okv = 1
+			ps[2] = c2
+		}
+		emit(event{"ev": "joined", "node": 3, "addr": ":" + c2.port, "ok": okv})
+		observe(ps, "join")
+		create(a, 2, 2)
+		observe(ps, "create")
+		for _, p := range []*proc{a, c2, d} {
+			if p.checkAlive() {
+				p.cmd.Process.Signal(syscall.SIGUSR1)
+			}
+		}
+		time.Sleep(1500 * time.Millisecond)
+		emit(event{"ev": "snapshotted"})
+		b.start()
+		observe(ps, "restart")
+		dd := create(b, 6, 2)
+		observe(ps, "create")
+		if dd != "" {
+			// the restarted follower has to reach the re-joined node at its new address
+			time.Sleep(1500 * time.Millisecond)
+			for k := 1; k <= 12; k++ {
+				writeItemN(dd, "insert", ps[k%4], k, 1)
+			}
+			for i := 0; i < 3; i++ {
+				findItems(dd, ps, "rejoined")
+			}
+		}
 	case "leave":
 		ctx, cancel := context.WithTimeout(context.Background(), 5*time.Second)
 		_, err := pb.NewNodesManagerClient(a.conn).RemoveNode(ctx, &pb.Node{Id: 3})
